@@ -102,6 +102,10 @@ def conf_change_cases(r, thorough):
         la, lb, lm = r.choice([(5, 9, 12), (18, 1, 30), (70, 70, 60), (1, 70, 3), (33, 34, 35)])
         key = r.choice(['pconf', 'pconf', 'conf'])
         cfg = node(extra=' %s=%s,%s,%s' % (key, ctext(la).hex(), ctext(lb).hex(), ctext(lm).hex()))
+        if rep % 3 == 2:
+            # both configuration calls, in either order (the second one counts): SetConfigurationInformation makes a local copy that
+            # SetProgmemConfigurationInformation has to let go of before a command writes a description (seed C07-21)
+            cfg = node(extra=' conf=%s,%s,%s pconf=%s,%s,%s%s' % (ctext(la).hex(), ctext(lb).hex(), ctext(lm).hex(), ctext(lb or 1).hex(), ctext(la or 1).hex(), ctext(lm).hex(), r.choice([' cthenp=1', ' cthenp=1', ''])))
         blocks = [['M', iso_request(51, 22, 126998), 'P', 'T 3', 'P']]
         for _k in range(r.choice([1, 2, 3])):
             f = r.choice([1, 2])
@@ -237,6 +241,14 @@ def gen(seed, tier):
             else:
                 blocks.append(block(r, 'fp', 50, me, gf_command(r.choice([126996, 126464, 126993, 59392, 127250, 65300]), 8, [(1, [1])])))
         cases.append(case(cfg, ops_of(blocks)))
+    # E1b. a description longer than the 70 characters the library keeps, FOLLOWED by another pair in the same message: the reader must step over
+    #      the whole string so that the next field number is read where it stands (seed C09-19)
+    for L in ((71, 80) if not thorough else (71, 72, 80, 100, 150, 200)):
+        long_ = bytes(65 + (k % 26) for k in range(L))
+        blocks = [block(r, r.choice(['fp', 'tp']), 50, 22, gf_command(126998, 8, [(1, varstr(long_)), (2, varstr(b'STBD'))])), ['M', iso_request(51, 22, 126998), 'P', 'T 3', 'P'],
+                  block(r, 'fp', 52, 22, gf_request(126998, pairs=[(2, varstr(b'STBD'))])),
+                  block(r, 'fp', 52, 22, gf_request(126998, pairs=[(1, varstr(long_)), (2, varstr(b'STBD'))]))]
+        cases.append(case(cfg1, ops_of(blocks)))
     # E2. installation descriptions in UCS-2 (type 0) whose UTF-8 form ends at / around the 70-byte limit of the library's field buffer with
     #     a 1-, 2- or 3-byte character: the conversion into the 71-byte buffer must cut on a character boundary and stay inside
     lasts = ['A', '\u00e4', '\u6c34']
@@ -728,7 +740,9 @@ def oracle(case, res):
     if cfg.get('prod'):                               # product strings set by the application (cut to 32 characters)
         st['prod'] = tuple(bytes.fromhex(x)[:32] if x != '-' else b'' for x in cfg['prod'].split(','))
     if cfg.get('pconf') or cfg.get('conf'):          # configuration strings set by the application (installation descriptions 1, 2, manufacturer information)
-        a, b, m = [bytes.fromhex(x)[:70] if x != '-' else b'' for x in (cfg.get('pconf') or cfg.get('conf')).split(',')]
+        # both calls made: the later one counts (conf, or - with cthenp=1 - the constant strings of pconf)
+        eff = cfg.get('pconf') if (cfg.get('pconf') and (cfg.get('cthenp') == 1 or not cfg.get('conf'))) else cfg.get('conf')
+        a, b, m = [bytes.fromhex(x)[:70] if x != '-' else b'' for x in eff.split(',')]
         st['d1'], st['d2'], st['manuf'] = a, b, m
     tainted = set()
     soft = []                      # failures that are listed known findings: recorded, the implementation's behaviour is adopted, checking goes on
